@@ -378,7 +378,7 @@ func opsText(ops []EOp) string {
 }
 
 func runC13(c *Ctx) {
-	c.Rule = "concurrent histories recorded on the real SyncedEnforcer (auto-saving recording adapter, invocation/response stamps from one atomic counter) on a plain RBAC model with a custom matcher function, on a pattern-matching model and on a domain model with a domain matching function: (a) schedules forced through the library's own callbacks — a primary call (LoadPolicy at the end of its first phase, Enforce inside a custom matcher function, Enforce inside the role manager's matching function or domain matching function, AddPolicy/UpdatePolicy inside the adapter) during which every sequence of <= 2 secondary calls over a 12-call alphabet is started and runs to completion or until it queues on the lock; (b) seeded random schedules of 2-4 goroutines x <= 5 calls with callback-induced delays; every history ends with sequential probes (GetPolicy, GetGroupingPolicy, all requests) and is decided by the Lean checker Lin.check against the enforcer model (LoadPolicy read as its two phases, finding D19); on the implementation: decisions after quiescence = a fresh enforcer given the listed rules, listed rules = store unless a LoadPolicy overlapped a change; non-trivial = a history with overlapping calls; distinct = history"
+	c.Rule = "concurrent histories recorded on the real SyncedEnforcer (auto-saving recording adapter, invocation/response stamps from one atomic counter) on a plain RBAC model with a custom matcher function, on a pattern-matching model and on a domain model with a domain matching function: (a) schedules forced through the library's own callbacks — a primary call (LoadPolicy at the end of its first phase, Enforce inside a custom matcher function, Enforce inside the role manager's matching function or domain matching function, AddPolicy/UpdatePolicy inside the adapter) during which every single secondary call and (thorough tier: every; quick tier: a seeded fifth plus every pair of updates) pair of secondary calls over the model's alphabet (13 calls on the plain model, 10 on the pattern model, 8 on the domain model) is started and runs to completion or until it queues on the lock; (b) seeded random schedules of 2-4 goroutines x <= 4 calls with callback-induced delays; every history ends with sequential probes (GetPolicy, GetGroupingPolicy, all requests) and is decided by the Lean checker Lin.check against the enforcer model (LoadPolicy read as its two phases, finding D19); on the implementation: decisions after quiescence = a fresh enforcer given the listed rules, listed rules = store unless a LoadPolicy overlapped a change; non-trivial = a history with overlapping calls; distinct = history"
 	probeM := And(Call2("probe", PTok(0), RTok(0)), G2("g", RTok(0), PTok(0)), Eq(RTok(1), PTok(1)), Eq(RTok(2), PTok(2)))
 	msPlain := NewMSpec().AddR("r", "sub", "obj", "act").AddP("p", "sub", "obj", "act").AddG("g", 2).AddE("e", effAllow).AddM("m", "r", "p", probeM)
 	plain := &linCfg{name: "plain", ms: msPlain, opts: CaseOpts{OraUniverse: []string{"carol", "bob", "admin", "alice", "data1", "data2", "read", "write"}},
